@@ -397,6 +397,25 @@ Definition meth (v : gval) (m : string) (args : list gval) : res gval :=
   end.
 
 (* built-in functions *)
+Definition is_nil (v : gval) : option bool :=
+  match v with
+  | VNil => Some true
+  | VErr b => Some (negb b)
+  | VOMeta m => Some (match m with None => true | _ => false end)
+  | VOPub p => Some (match p with None => true | _ => false end)
+  | VOSData p => Some (match p with None => true | _ => false end)
+  | VTxs l => Some (match l with None => true | _ => false end)
+  | VDAErr _ => Some false
+  | VErrTag _ => Some false
+  | VRec _ => Some false
+  | VBatchQ _ => Some false
+  | VIdsResult _ _ => Some false
+  | VOrc _ _ => Some false
+  | VObj _ _ => Some false
+  | VTok n _ => if n =? "errors.Join" then Some false else None
+  | _ => None
+  end.
+
 Definition builtin (globals : env) (f : string) (args : list gval) : res gval :=
   if f =? "len" then
     match args with
@@ -440,6 +459,7 @@ Definition builtin (globals : env) (f : string) (args : list gval) : res gval :=
   else if f =? "fmt.Errorf%w" then
     match args with
     | [VErrTag t] => RRet (VErrTag t)          (* wrapping keeps the identity errors.Is looks for *)
+    | [VSent sn t] => RRet (VDAErr (Proxy.mk_err [sn] false t))   (* ... and, for "%w: ...", the sentinel's text at the front *)
     | _ => RRet (VErr true)
     end
   else if f =? "fmt.Sprintf" then
@@ -477,6 +497,18 @@ Definition builtin (globals : env) (f : string) (args : list gval) : res gval :=
     | [VErr _; VErrTag _] => RRet (VBool false)
     | [VNil; VErrTag _] => RRet (VBool false)
     | _ => RFail "errors.Is"
+    end
+  else if f =? "errors.Join" then                (* nil iff every part is nil; otherwise a new non-nil error of the non-nil parts *)
+    match args with
+    | [a; b] =>
+        match is_nil a, is_nil b with
+        | Some true, Some true => RRet VNil
+        | Some true, Some false => RRet (VTok "errors.Join" [b])
+        | Some false, Some true => RRet (VTok "errors.Join" [a])
+        | Some false, Some false => RRet (VTok "errors.Join" [a; b])
+        | _, _ => RFail "errors.Join"
+        end
+    | _ => RFail "errors.Join"
     end
   else if f =? "strings.Contains" then
     match args with
@@ -531,23 +563,6 @@ Definition builtin (globals : env) (f : string) (args : list gval) : res gval :=
     end
   else RFail ("call " ++ f).
 
-Definition is_nil (v : gval) : option bool :=
-  match v with
-  | VNil => Some true
-  | VErr b => Some (negb b)
-  | VOMeta m => Some (match m with None => true | _ => false end)
-  | VOPub p => Some (match p with None => true | _ => false end)
-  | VOSData p => Some (match p with None => true | _ => false end)
-  | VTxs l => Some (match l with None => true | _ => false end)
-  | VDAErr _ => Some false
-  | VErrTag _ => Some false
-  | VRec _ => Some false
-  | VBatchQ _ => Some false
-  | VIdsResult _ _ => Some false
-  | VOrc _ _ => Some false
-  | VObj _ _ => Some false
-  | _ => None
-  end.
 
 (* uint64 subtraction wraps (numPending); everything else is far from any bound in the functions covered *)
 Definition sub64 (a b : N) : N := Throttle.sub64 a b.
